@@ -184,6 +184,18 @@ CHECKS = {
             "equivariance as such is not executed; eval(expr) is opaque.",
             "homogeneity-degree type inference (abstract interpretation over ast) + structural rules",
             "DESIGN.md section 4 C10"),
+    "C12": (True, "other",
+            "Unit and direction-convention typing of every converter: the units interpreter is seeded with each model's native "
+            "convention (an independent table: WW3 m2 s rad-1 / nautical going-to degrees; SWAN netCDF m2 s rad-1 / radians; WWM "
+            "action density over rad s-1 and radians; ERA5 log10 densities; NDBC m2 s with r1/r2 moments) and what each converter "
+            "stores as efth, freq, dir, wspd, wdir must type as m2 s deg-1 (linear in the native density), Hz, degrees "
+            "nautical coming-from in [0,360), m s-1: degree/radian factors however spelled, the 180-degree turn, mod 360, log "
+            "handling (fillna only after 10**), clipping of the spreading series, the sigma->f Jacobian pairing; dispatcher order, "
+            "ValueError fallback and reader contract (one known finding: ERA5 branch); no in-place scaling (shared).",
+            "equality of integrated variance native vs converted is numeric and not decided; the native-convention table is the "
+            "trusted base; WWM directions are assumed to span one circle.",
+            "units / angle-convention type inference (abstract interpretation over ast) seeded from a native-convention table + dispatcher cross-check",
+            "DESIGN.md section 4 C12"),
 }
 
 NA_DEFAULT = "check under construction in this build round (see DESIGN.md section 8)"
